@@ -1162,7 +1162,7 @@ def m_numpy_decimal(c):
 
 def m_excl_set(c):
     """a set member whose TYPE was changed (str <-> bytes, int <-> float) into / out of an excluded type"""
-    return (c["clause"] == "A" and c["exc"] is None and bool(c["spec"]["excl"])
+    return (c["clause"] in ("A", "B") and c["exc"] is None and bool(c["spec"]["excl"])
             and any(x in ("strty@set", "numty@set") for x in c["altered"]) and "set_item" in str(c["with_options"]))
 
 
@@ -1312,6 +1312,20 @@ def atom_level(ctx, n):
         exp = DeepHash(a, hasher=lambda s: s, **kw)[a]
         cases.append(("hatom_sx %s %s" % (coq_opts(sp), V.atom_to_coq(a)), exp, {"hash_text": [repr(a), name]}))
         ctx.seen(("ha", name, repr(a)))
+    # hash text of dyadic floats (<= 8 fractional bits: repr is the exact expansion) in the extended model
+    xcases = []
+    for _ in range(n // 2):
+        name, sp = rng.choice(specs)
+        e = rng.choice([0, 1, 2, 3, 5, 8])
+        a = rng.randint(-(1 << (e + 9)), 1 << (e + 9)) / (1 << e)
+        if a == 0 and math.copysign(1, a) < 0:
+            a = 0.0
+        kw = {k: v for k, v in kwargs_of(sp).items() if k in ("ignore_string_case", "ignore_string_type_changes",
+                                                             "ignore_numeric_type_changes", "significant_digits")}
+        exp = DeepHash(a, hasher=lambda s: s, **kw)[a]
+        xcases.append(("xhatom_sx %s %s" % (xcoq_opts(sp), x_atom_to_coq(a)), exp, {"hash_text_float": [repr(a), name]}))
+        ctx.seen(("xha", name, repr(a)))
+    ctx.coq_cases("c11_xatoms", XHDR, xcases, shard=400, label="atom_level(hash text of dyadic floats, extended model)")
     # datetimes: helper.datetime_normalize + the comparison of _diff_datetime against dt_instant / dt_changed
     from deepdiff.helper import datetime_normalize
     epoch_utc = datetime.datetime(1970, 1, 1, tzinfo=datetime.timezone.utc)
@@ -1548,7 +1562,7 @@ def run(ctx):
     atom_level(ctx, 8000 if thorough else 600)
 
     # ---- structural correspondence + oracle on the modelled universe ----
-    per_spec = 2400 if thorough else 150
+    per_spec = 2400 if thorough else 100
     mjobs, ojobs = [], []
     specs = all_specs(rng, True)
     for name, sp in specs:
@@ -1603,7 +1617,7 @@ def run(ctx):
     # ---- the extended model (arbitrary floats, datetimes; + truncate_datetime, default_timezone) ----
     global _XU
     _XU = True
-    per_spec = 900 if thorough else 70
+    per_spec = 900 if thorough else 50
     xjobs, ojobs = [], []
     for name, sp in xspecs(rng):
         for fam, a, b, log in gen_pairs(rng, sp, per_spec, True):
@@ -1639,7 +1653,7 @@ def run(ctx):
     report_oracle(ctx, ores, ojobs)
 
     # ---- direct oracle on the rich universe, all eleven options ----
-    per_spec = 1800 if thorough else 100
+    per_spec = 1800 if thorough else 70
     ojobs = []
     for name, sp in all_specs(rng, False):
         for fam, a, b, log in gen_pairs(rng, sp, per_spec, True):
